@@ -604,6 +604,25 @@ where
         &mut self,
         diff: &Diff<T>,
     ) -> Result<(), Self::Error> {
+        // Verify the checkpoint before the destructive change
+        // as there is no snapshot to rollback to afterwards
+        let mut tree = CommitTree::new();
+        let mut hashes = diff
+            .patch
+            .iter()
+            .map(|r| *r.commit().as_ref())
+            .collect::<Vec<_>>();
+        tree.append(&mut hashes);
+        tree.commit();
+        let computed = tree.head().unwrap_or_default();
+        if computed != diff.checkpoint {
+            return Err(Error::CheckpointVerification {
+                checkpoint: diff.checkpoint.root,
+                computed: computed.root,
+            }
+            .into());
+        }
+
         self.insert_records(diff.patch.records(), true).await?;
 
         let computed = self.tree().head()?;
